@@ -17,7 +17,7 @@ for f in sorted(glob.glob(V + "/seeded/FREE*/meta.json")):
     free.append("| %s | %s | %s | %d |" % (sid, (m.get("breaks") or "").replace("|", "/").replace("\n", " ")[:230], ", ".join(hit) or "NONE", len(c) - len(hit)))
 new = """## 10. Seeded changes: which checks catch which changes
 
-**Property rounds.**  In seven rounds, fresh sub-agents were given only a property's text and a scratch worktree (nothing
+**Property rounds.**  In eight rounds, fresh sub-agents were given only a property's text and a scratch worktree (nothing
 from `/verif`) and asked for two independent changes each that break the property while compiling and passing the
 pinned suite, needing something specific to manifest, with a demonstration; rounds 2 and 3 had to differ in site and
 kind from the earlier ones and were steered towards the glue between the kernels; round 4 was steered OUTSIDE the
@@ -26,7 +26,9 @@ that appear only after a long history; round 5 at BOUNDARY VALUES of valid input
 values 0 and 1, first/last element, largest size, empty and single-element inputs, events exactly on a boundary day);
 rounds 6 and 7 at NON-DEFAULT CONFIGURATION AND FEATURE INTERACTION (the change manifests only under a configuration
 value, override, input-file variant or pair of features that the shipped projects do not use; every shipped run stays
-bit-identical).  Each change was confirmed by the
+bit-identical); round 8 at ARITHMETIC, TYPE AND INDEX SUBTLETIES inside a realistic clean-up (integer versus floating-point
+division, truncation versus rounding, a moved parenthesis, < versus <=, a unit factor, 0- versus 1-based index, a value
+taken before versus after an update, a shadowed variable, a copied array, a named integer type missed by a type switch).  Each change was confirmed by the
 lead (`lib/seedtest.py`: applies, compiles, pinned suite passes, demonstration passes without / fails with) in a scratch
 worktree and run against the property's check (`VERIF_REPO=<worktree> ./check <id>`).  A change that got through was
 sent to the owner of the check with the instruction to strengthen model, tie and oracle — never to special-case the
